@@ -38,9 +38,16 @@ def gen_case(rng, tier, force_big_edge=False):
             # are merged: vectorized sweeps use edges that leave state variables only
             edges = [e for e in edges if e["src"] in sp]
         mdl["circuit"]["edges"] = edges
+        edge_ops = bool(edges) and rng.random() < 0.3 and not force_big_edge
+        if edge_ops:
+            # some edges carry an edge operator (coupling function / dynamic synapse): the rows of a sweep share one vectorized edge operator
+            from . import c04
+            c04.add_edge_templates(rng, mdl)
         flat = M.flatten(mdl)
         consts = {}     # op name -> (const names, node labels having the op)
         for n in flat["nodes"]:
+            if n["path"].startswith("__edge"):
+                continue
             for o in n["ops"]:
                 cs = [d["name"] for d in o["vars"] if M.kind_of(o, d) == "const"]
                 if cs:
@@ -103,7 +110,7 @@ def gen_case(rng, tier, force_big_edge=False):
             if ins:
                 ext = [{"tgt": rng.choice(ins), "samples": [C.q2s(F(rng.randint(-4, 4), 2)) for _ in range(steps)]}]
         case = {"mdl": mdl, "grid": grid, "param_map": pmap, "permute": permute, "as_frame": as_frame, "frame_index": frame_index, "solver": solver, "steps": steps,
-                "vectorize": vectorize, "ext_inputs": ext, "as_path": rng.random() < 0.3}
+                "vectorize": vectorize, "ext_inputs": ext, "as_path": rng.random() < 0.3 and not edge_ops, "edge_ops": edge_ops}
         # admissible: every row's exact trajectory stays within float64
         try:
             ok = True
@@ -154,7 +161,7 @@ def impl_sweep(case):
     from pyrates.utility import grid_search
     mdl = case["mdl"]
     flat = M.flatten(mdl)
-    sp = M.state_paths(flat)
+    sp = [p_ for p_ in M.state_paths(flat) if not p_.startswith("__edge")]      # variables of edge operators are not addressable outputs
     with M.Scratch():
         with warnings.catch_warnings():
             warnings.simplefilter("ignore")
@@ -214,12 +221,9 @@ def check(tier, seed, replay=None):
         keys = list(case["grid"])
         kinds = "+".join(sorted({"edge" if "edges" in case["param_map"][k] else "node" for k in keys}))
         multi = any(len(pm.get("nodes", [])) * len(pm["vars"]) > 1 or len(pm.get("edges", [])) > 1 for pm in case["param_map"].values())
-        rep.count(("permuted" if case["permute"] else "linear") + ("-frame" if case["as_frame"] else "") + "-" + kinds + ("-input" if case["ext_inputs"] else "") + ("-yamlpath" if case.get("as_path") else ""),
+        rep.count(("permuted" if case["permute"] else "linear") + ("-frame" if case["as_frame"] else "") + "-" + kinds + ("-input" if case["ext_inputs"] else "") + ("-yamlpath" if case.get("as_path") else "") + ("-edgeops" if case.get("edge_ops") else ""),
                   json.dumps(case, sort_keys=True), nontrivial=multi and len(keys) >= 2)
         if "error" in im:
-            if case["vectorize"] and im["error"] == "ValueError" and "setting an array element with a sequence" in im.get("msg", "") and "C17-inherits-C04-dot-edge" in active_kf:
-                rep.known_finding("C17-inherits-C04-dot-edge: vectorize=True sweep refused with ValueError('setting an array element with a sequence') - C04's dot-edge finding (loud)")
-                continue
             bad.append((case, [("raises", im)]))
             continue
         dev = []
